@@ -51,7 +51,7 @@ type Ans struct {
 	Fl    []string `json:"fl"` // no-cache, no-store, must-revalidate, public, private, immutable, must-understand
 	Swr   int      `json:"swr"`
 	Sie   int      `json:"sie"`
-	Ncf   int      `json:"ncf"`    // 1: no-cache is qualified with field X-Secret
+	Ncf   int      `json:"ncf"`    // 1: no-cache is qualified with field X-Secret, 2: with ETag and X-Secret
 	NoDate int     `json:"nodate"` // 1: no Date header
 	Dsk   int      `json:"dsk"`    // Date skew: receive time - Date (may be negative)
 	Ex    int      `json:"ex"`     // Expires - Date (None, Invalid, or delta which may be <= 0 encoded via ExNeg)
@@ -93,7 +93,7 @@ type Step struct {
 	Faults []Fault `json:"faults,omitempty"`
 	D      int     `json:"d,omitempty"`
 	Cancel int     `json:"cancel,omitempty"` // req: 1 = cancel the caller's context right after return, 2 = before the call
-	LateBody int   `json:"latebody,omitempty"` // req: 1 = read the body only after due background work has finished
+	LateBody int   `json:"latebody,omitempty"` // req: 1 = read the body only after due background work has finished, 2 = at the end of the scenario
 	Par    []Step  `json:"par,omitempty"`    // conc: requests issued concurrently
 	Sched  []int   `json:"sched,omitempty"`  // conc: gate release order (client indices)
 }
